@@ -178,6 +178,7 @@ func (g *GruleEngine) ExecuteWithContext(ctx context.Context, dataCtx ast.IDataC
 		// Select all rule entry that can be executed.
 		log.Tracef("Select all rule entry that can be executed.")
 		runnable := make([]*ast.RuleEntry, 0)
+		knowledge := simKB("engine.exec", knowledge) // verif hook: identity unless built with -tags verif
 		for _, ruleEntry := range knowledge.RuleEntries {
 			if ctx.Err() != nil {
 				log.Error("Context canceled")
@@ -290,6 +291,7 @@ func (g *GruleEngine) FetchMatchingRules(dataCtx ast.IDataContext, knowledge *as
 	// Select all rule entry that can be executed.
 	log.Tracef("Select all rule entry that can be executed.")
 	runnable := make([]*ast.RuleEntry, 0)
+	{ knowledge := simKB("engine.fetch", knowledge) // verif hook: identity unless built with -tags verif
 	for _, entries := range knowledge.RuleEntries {
 		if !entries.Deleted {
 			// test if this rule entry v can execute.
@@ -306,6 +308,7 @@ func (g *GruleEngine) FetchMatchingRules(dataCtx ast.IDataContext, knowledge *as
 			}
 		}
 	}
+	} // verif hook: end of block opened above
 	log.Debugf("Matching rules length %d.", len(runnable))
 	if len(runnable) > 1 {
 		sort.SliceStable(runnable, func(i, j int) bool {
